@@ -32,37 +32,38 @@ struct cs_mon {
 };
 struct cs_mon cs;
 unsigned long cs_k;		/* ghost offset; the unit keeps it inside every monitored buffer */
+unsigned long cs_wr_off;	/* WRITE events take their witness at buf[cs_wr_off + cs_k] (object inside a block; 0 by default) */
 
-#define CS_RESET() do { memset(&cs, 0, sizeof(cs)); cs_k = IN.c.k; } while (0)
+#define CS_RESET() do { memset(&cs, 0, sizeof(cs)); cs_k = IN.c.k; cs_wr_off = 0; } while (0)
 #define CS_ASSUME_CODES() ASSUME((!IN.c.rd_fail || IN.c.rd_ret != 0) && (!IN.c.wr_fail || IN.c.wr_ret != 0) && (!IN.c.set_fail || IN.c.set_ret != 0))
 
-static void cs_note(struct cs_event *e, const void *buf, unsigned long long id, int count, int with_wit)
+static void cs_note(struct cs_event *e, const void *buf, unsigned long long id, int count, int with_wit, unsigned long off)
 {
 	e->n++;
 	e->seq = ++cs.seq;
 	e->buf = buf;
 	e->id = id;
 	e->count = count;
-	e->wit = with_wit ? ((const unsigned char *)buf)[cs_k] : 0;
+	e->wit = with_wit ? ((const unsigned char *)buf)[off + cs_k] : 0;
 }
 static errcode_t cs_ev_read(const void *buf, unsigned long long blk, int count)
 {
-	cs_note(&cs.rd, buf, blk, count, 0);
+	cs_note(&cs.rd, buf, blk, count, 0, 0);
 	return IN.c.rd_fail ? (errcode_t)IN.c.rd_ret : 0;
 }
 static int cs_ev_verify(const void *buf, unsigned long long id)
 {
-	cs_note(&cs.vf, buf, id, 0, 1);
+	cs_note(&cs.vf, buf, id, 0, 1, 0);
 	return IN.c.cv_ok ? 1 : 0;
 }
 static errcode_t cs_ev_set(const void *buf, unsigned long long id)
 {
-	cs_note(&cs.st, buf, id, 0, 1);
+	cs_note(&cs.st, buf, id, 0, 1, 0);
 	return IN.c.set_fail ? (errcode_t)IN.c.set_ret : 0;
 }
 static errcode_t cs_ev_write(const void *buf, unsigned long long blk, int count)
 {
-	cs_note(&cs.wr, buf, blk, count, 1);
+	cs_note(&cs.wr, buf, blk, count, 1, cs_wr_off);
 	return IN.c.wr_fail ? (errcode_t)IN.c.wr_ret : 0;
 }
 
@@ -100,6 +101,37 @@ static void cs_build_fs(unsigned int blocksize)
 	CS_RESET();
 	CS_ASSUME_CODES();
 }
+#if defined(CS_MEMCPY_CONTRACT) && !defined(VERIF_NATIVE)
+/*
+ * libc memcpy by contract (units that list "memcpy" under `replace`): CBMC's byte-array model of a copy with a SYMBOLIC
+ * length is what makes the inode / bitmap paths run out of memory.  Source readable and destination writable for n bytes
+ * are obligations at every call; the copy is stated to be faithful at the ghost offset cs_k counted from the start of the
+ * copy (true of memcpy at every offset); all other bytes of the destination OBJECT become unconstrained (over-approximation).
+ */
+void *memcpy(void *dst, const void *src, size_t n)
+	REQUIRES(__CPROVER_r_ok(src, n) && __CPROVER_w_ok(dst, n))
+	ASSIGNS(__CPROVER_object_whole(dst))
+	ENSURES(RET == dst)
+	ENSURES(cs_k >= n || ((const unsigned char *)dst)[cs_k] == ((const unsigned char *)src)[cs_k]);
+#endif
+
+#if defined(CS_MEM_CONTRACTS) && !defined(VERIF_NATIVE)
+/*
+ * ext2fs_get_mem / ext2fs_free_mem (inline malloc/free wrappers of ext2fs.h) store the pointer with memcpy: when memcpy is
+ * replaced by the pointwise contract above they must be replaced too.  get_mem: fails with EXT2_ET_NO_MEMORY or hands out a
+ * fresh object of the requested size (arbitrary content); free_mem: clears the pointer (the object is not released:
+ * use-after-free / double free are NOT checked in units that use these contracts).
+ */
+errcode_t cs_gm_ret;
+errcode_t ext2fs_get_mem(unsigned long size, void *ptr)
+	ASSIGNS(*(char **)ptr, cs_gm_ret)
+	ENSURES(RET == cs_gm_ret && (RET == 0 || RET == EXT2_ET_NO_MEMORY))
+	ENSURES(RET != 0 || __CPROVER_is_fresh(*(char **)ptr, size));
+errcode_t ext2fs_free_mem(void *ptr)
+	ASSIGNS(*(char **)ptr)
+	ENSURES(RET == 0 && *(char **)ptr == 0);
+#endif
+
 #define CS_IGNORE() ((FS.flags & EXT2_FLAG_IGNORE_CSUM_ERRORS) != 0)
 
 #endif
